@@ -115,9 +115,16 @@ def check_wrapper(chk):
                 chk.unrec('C05.W', f'{fname}: dynamic call {norm(call)[:80]} is neither a function value call f(args, options) nor a known option callback (origins: {origins[:120]})', mod.rel)
                 continue
             n_fv += 1
-            _check_function_value_call(chk, mod, fname, func, call, callee)
+            if fname != 'evaluate_expression':
+                _check_function_value_call(chk, mod, fname, func, call, callee)
     if n_fv == 0:
         raise Unrecognised('C05.W', 'no call of a function value found in runtime.py', mod.rel)
+    # the wrapper around the function value call of evaluate_expression: decided by abstract evaluation (E6e)
+    from .. import evalsim
+    evalsim.report(chk, {'wrapper': 'C05.W', 'truth': 'C05.W', 'wrapper-rt': 'C05.O'},
+                   {'wrapper': 'a host function that raises ValueArgsError / TypeError / BareScriptParserError evaluates to the declared failure value / null / null, also as an argument of another call; '
+                               'the failure is logged through logFn exactly when a logFn exists and debug is on; no KeyError without logFn / options',
+                    'wrapper-rt': 'BareScriptRuntimeError raised inside a called function propagates (is not absorbed by the catch-all)'})
 
 
 def _handler_outcomes(stmts, err, is_va, local_defs, after):
